@@ -36,7 +36,7 @@ BOTH = "{FALSE, TRUE}"
 # --- C08: every outcome in every form through every stack -------------------------------------------------
 cfg("rs_expA.cfg", "exp")
 cfg("rs_expB.cfg", "exp", Stacks="StacksTimes", Outcomes="Out1", MaxTests=1, MaxTimes=3, MaxCalls=9, AllowDone="TRUE", AllowProgress="TRUE")
-cfg("rs_expB2.cfg", "exp", Stacks="StacksTimes", Outcomes="Out2", MaxTests=2, MaxTimes=2, MaxTagOps=1, MaxCalls=10, AllowDone="TRUE", AllowProgress="TRUE")
+cfg("rs_expB2.cfg", "exp", Stacks="StacksTimes", Outcomes="Out2", MaxTests=2, MaxTimes=2, MaxCalls=10, AllowDone="TRUE", AllowProgress="TRUE")
 cfg("rs_mcA3all.cfg", "mc", Outcomes="Out13", MaxTests=3, MaxCalls=11)
 cfg("rs_mcA3.cfg", "mc", Stacks="StacksCore", Outcomes="Out13", MaxTests=3, MaxCalls=11)
 # --- C04: verdict, failfast, stop -----------------------------------------------------------------------------
@@ -50,7 +50,8 @@ cfg("rs_mcC.cfg", "mc", Stacks="StacksCore", Outcomes="Out4", AllowStop="TRUE", 
 cfg("rs_expT1.cfg", "exp", Stacks="StacksTags", Outcomes="Out1", TagOps="TagOps4", MaxTagOps=2, MaxCalls=10)
 cfg("rs_expT2.cfg", "exp", Stacks="StacksTags", Outcomes="Out1", TagOps="TagOps2", MaxTagOps=2, MaxCalls=9, AllowSkipNoStart="TRUE")
 cfg("rs_expT3.cfg", "exp", Stacks="StacksTags", Outcomes="Out1", TagOps="TagOps2", MaxTagOps=2, MaxTests=1, MaxRuns=2, MaxCalls=10)
-cfg("rs_expT4.cfg", "exp", Stacks="StacksTags", Outcomes="Out2", TagOps="TagOps4", MaxTagOps=3, MaxTests=2, MaxRuns=2, MaxCalls=10, AllowSkipNoStart="TRUE")
+cfg("rs_expT4.cfg", "exp", Stacks="StacksTags", Outcomes="Out1", TagOps="TagOps3", MaxTagOps=3, MaxTests=2, MaxRuns=1, MaxCalls=9, AllowSkipNoStart="TRUE")
+cfg("rs_expT5.cfg", "exp", Stacks="StacksTags", Outcomes="Out1", TagOps="TagOps2", MaxTagOps=3, MaxTests=2, MaxRuns=2, MaxCalls=11)
 cfg("rs_mcT.cfg", "mc", Stacks="StacksCore", Outcomes="Out1", TagOps="TagOpsAll", MaxTagOps=3, MaxCalls=10, AllowSkipNoStart="TRUE")
 # --- deep random behaviours over the full alphabet ---------------------------------------------------------
 cfg("rs_sim.cfg", "sim", Outcomes="Out13", TagOps="TagOpsAll", MaxCalls=24, MaxTests=4, MaxRuns=2, MaxTagOps=5, MaxTimes=4,
